@@ -563,8 +563,41 @@ def history_same_object(ctx, count):
         check_object_views(ctx, ser, rows, ty, "start", hist)
         for step in range(rng.randint(2, 4)):
             kind = rng.choice(["setitem", "setitem", "setitem_none", "nest_setitem", "nest_setitem", "relabel", "read",
-                               "ragged_setitem", "ragged_list_field"])
+                               "ragged_setitem", "ragged_list_field", "add_field", "pop_field"])
             n = len(rows)
+            if kind == "pop_field" and len(ty) < 2:
+                kind = "add_field"
+            if kind in ("add_field", "pop_field"):
+                # the SET of fields changes in place, through the array's own methods (the accessor and the dtype of
+                # the Series were looked at before: check_object_views ran at the start)
+                try:
+                    if kind == "pop_field":
+                        f = rng.choice([x for x, _ in ty])
+                        hist.append({"op": "pop_field", "field": f})
+                        ser.array.pop_fields([f])
+                        ty = [p for p in ty if p[0] != f]
+                        rows = [None if r is None else [p for p in r if p[0] != f] for r in rows]
+                    else:
+                        f = f"nf{step}"
+                        t = rng.choice(["int64", "double", "string"])
+                        lens = ops_lens(rows)
+                        how = rng.choice(["flat", "list"])
+                        lists = [[gen.rand_cell(rng, t) for _ in range(ln)] for ln in lens]
+                        hist.append({"op": "add_field", "field": f, "ty": t, "how": how, "lists": lists})
+                        if how == "flat":
+                            ser.array.set_flat_field(f, gen.flat_array([c for l in lists for c in l], t))
+                        else:
+                            ser.array.set_list_field(f, gen.mk_list_array(lists, t))
+                        ty = ty + [[f, t]]
+                        rows = [None if r is None else r + [[f, l]] for r, l in zip(rows, lists)]
+                except Exception as e:  # noqa: BLE001
+                    ctx.case(f"history.{kind}", {"history": hist}, {"err": type(e).__name__, "msg": str(e)[:100]}, None,
+                             {"ok": True}, features=("history",))
+                check_object_views(ctx, ser, rows, ty, f"step{step}", list(hist))
+                # "if this updates the dtype, it would not affect the dtype of the pd.Series" (documented): the
+                # history goes on with a Series made of the same array object
+                ser = pd.Series(ser.array, index=ser.index, copy=False)
+                continue
             if kind in ("ragged_setitem", "ragged_list_field") and len(ty) >= 2:
                 # an in-place call that must be REFUSED and leave the object as it was
                 hist.append({"op": kind})
@@ -600,7 +633,9 @@ def history_same_object(ctx, count):
                         ser.array[m] = val
                     rows[i] = row
                 except Exception as e:  # noqa: BLE001
-                    ctx.case("history.setitem", {"history": hist}, {"err": type(e).__name__, "msg": str(e)[:100]}, None,
+                    import traceback
+                    ctx.case("history.setitem", {"history": hist}, {"err": type(e).__name__, "msg": str(e)[:100],
+                                                                     "where": traceback.format_exc()[-3000:]}, None,
                              {"ok": True}, features=("history",))
             elif kind == "nest_setitem":
                 f, t = rng.choice(ty)
